@@ -295,12 +295,51 @@ func genC06() *rapid.Generator[*Spec] {
 		}
 		mut := x.pick([]string{"remove", "remove", "remove", "nearmiss", "nearmiss", "alias", "remove-one", "remove-one", "twin-type", "twin-type"}, "mut")
 		if mut == "twin-type" {
+			// prefer a needed generic instantiation, if the program has one
+			for _, k2 := range v.Needed {
+				s2 := v.Set.Map[k2].Src
+				if s2.Kind == "func" {
+					if t2 := resolveT(s, s2.T); t2.K == "named" && len(t2.Args) > 0 {
+						key, src = k2, s2
+						break
+					}
+				}
+			}
 			// the provider now returns a type of the same name from another package of the same
 			// name; a consumer takes both, the twin first: the original has no source any more
 			done := false
 			if src.Kind == "func" {
 				st := resolveT(s, src.T)
-				if st.K == "named" && len(st.Args) == 0 && s.Decls[st.Decl].Form == "struct" && isExportedName(s.Decls[st.Decl].Name) {
+				if st.K == "named" && len(st.Args) > 0 {
+					// generic type: the twin is another instantiation of the same declaration
+					for ci := range s.Items {
+						c := &s.Items[ci]
+						if c.Kind != "func" || c.Variadic {
+							continue
+						}
+						for pi, pt := range c.Params {
+							if m.K(pt) == key {
+								tw := *st
+								tw.Args = []*Type{Basic("bool")}
+								if len(st.Args) == 2 {
+									tw.Args = []*Type{st.Args[0], Basic("bool")}
+								}
+								twin := &tw
+								s.Items[src.Item].Out = twin
+								np2 := append([]*Type{}, c.Params[:pi]...)
+								np2 = append(np2, twin)
+								np2 = append(np2, c.Params[pi:]...)
+								c.Params = np2
+								done = true
+								break
+							}
+						}
+						if done {
+							break
+						}
+					}
+				}
+				if !done && st.K == "named" && len(st.Args) == 0 && s.Decls[st.Decl].Form == "struct" && isExportedName(s.Decls[st.Decl].Name) {
 					for ci := range s.Items {
 						c := &s.Items[ci]
 						if c.Kind != "func" || c.Variadic {
